@@ -77,11 +77,21 @@ def build_regular(p):
 
 
 def build_depth(p):
-    """a concrete loop of n iterations, then if (x == 42) Panic(1): with --depth below the step count the
-    failure is beyond the cut"""
+    """shape "after": a concrete loop of n iterations, then if (x == 42) Panic(1);
+    shapes "short_fallthrough" / "short_taken": if (x != 42) STOP (a short successful path) else the loop and
+    then Panic(1) -- the two shapes differ in which side of the JUMPI is the short path, so that whatever the
+    worklist order one of them completes the short path first.  With --depth below the step count the
+    failure is beyond the cut while a successful path exists."""
     sig = "check_deep(uint256)"
+    shape = p.get("shape", "after")
     items = l3.dispatcher([(sig, "F")]) + [("label", "F"), "POP"]
-    items += loop_items(["const", p["n"]], "while", "a") + ["POP", ("push", 4), "CALLDATALOAD", ("push", 42), "EQ", ("ref", "P"), "JUMPI", "STOP", ("label", "P")] + l3.panic_items(1)
+    loop = loop_items(["const", p["n"]], "while", "a")
+    if shape == "after":
+        items += loop + ["POP", ("push", 4), "CALLDATALOAD", ("push", 42), "EQ", ("ref", "P"), "JUMPI", "STOP", ("label", "P")] + l3.panic_items(1)
+    elif shape == "short_fallthrough":
+        items += [("push", 4), "CALLDATALOAD", ("push", 42), "EQ", ("ref", "LONG"), "JUMPI", "STOP", ("label", "LONG")] + loop + ["POP"] + l3.panic_items(1)
+    else:
+        items += [("push", 4), "CALLDATALOAD", ("push", 42), "EQ", "ISZERO", ("ref", "SHORT"), "JUMPI"] + loop + ["POP"] + l3.panic_items(1) + [("label", "SHORT"), "STOP"]
     rt = assemble(items)
     c = l3.Contract("T", [("check_deep", ["uint256"])], rt)
     truth = [[[l3.FOUNDRY_TEST, (l3.selector(sig) + x.to_bytes(32, "big")).hex()]] for x in (0, 41, 42, 43)]
@@ -168,11 +178,13 @@ def gen_cases(r, tier):
     cases = []
     loops = [1, 2, 4]
     forms = ["while", "while_not", "countdown"]
-    # concrete trip counts: never cut, whatever --loop
-    for n in ([0, 1, 3, 9] if tier == "quick" else [0, 1, 2, 3, 5, 9, 17, 40]):
-        for L in ([1, 2] if tier == "quick" else loops):
-            form = forms[(n + L) % 3]
-            cases.append({"family": "regular", "params": {"trip": ["const", n], "form": form, "K": n, "body": r.choice(["none", "storage"])}, "options": ["--loop", str(L)]})
+    # concrete trip counts: never cut, whatever --loop (every loop form with n above the bound)
+    if tier == "quick":
+        consts = [(0, 1, "while"), (1, 2, "while_not"), (3, 1, "while"), (3, 2, "countdown"), (9, 1, "countdown"), (9, 2, "while"), (3, 2, "while_not"), (1, 1, "countdown")]
+    else:
+        consts = [(n, L, f) for n in [0, 1, 2, 3, 5, 9, 17, 40] for L in loops for f in forms if (n + L + forms.index(f)) % 2 == 0 or n in (3, 9)]
+    for n, L, form in consts:
+        cases.append({"family": "regular", "params": {"trip": ["const", n], "form": form, "K": n, "body": r.choice(["none", "storage"])}, "options": ["--loop", str(L)]})
     for n in ([3, 6] if tier == "quick" else [1, 3, 6, 12]):
         cases.append({"family": "regular", "params": {"trip": ["pinned", n], "form": forms[n % 3], "K": n, "body": "none"}, "options": ["--loop", "1"]})
     # symbolic trip counts: K below / at / above the bound
@@ -187,7 +199,10 @@ def gen_cases(r, tier):
             cases.append({"family": "regular", "params": {"trip": trip, "form": forms[(K + L) % 3], "K": K, "body": "none"}, "options": ["--loop", str(L)]})
     # --depth
     for n, d in ([(20, 60), (20, 100000)] if tier == "quick" else [(20, 30), (20, 60), (20, 150), (20, 260), (20, 100000), (5, 80), (5, 40)]):
-        cases.append({"family": "depth", "params": {"n": n}, "options": ["--depth", str(d), "--loop", "2"]})
+        cases.append({"family": "depth", "params": {"n": n, "shape": "after"}, "options": ["--depth", str(d), "--loop", "2"]})
+    for shape in ("short_fallthrough", "short_taken"):
+        for d in ([60] if tier == "quick" else [40, 60, 120, 100000]):
+            cases.append({"family": "depth", "params": {"n": 20, "shape": shape}, "options": ["--depth", str(d)]})
     # --width
     for k, w in ([(3, 3), (3, 0)] if tier == "quick" else [(3, 1), (3, 3), (3, 7), (3, 8), (3, 0), (2, 2), (2, 4), (4, 5)]):
         for pattern in ([0, (1 << k) - 1] if tier != "quick" else [(1 << k) - 1]):
